@@ -7,6 +7,16 @@ ids = [p['id'] for p in props]
 
 # id -> (engine, technique, level text, level note, design ref)
 CHECKS = {
+ 'C10': ('E2-vm-lockstep',
+         'exhaustive enumeration of all programs up to length 4 (thorough 5) over four reduced alphabets (arithmetic/logic, data, control/heap, loop skeletons) on three initial heaps, all operand tuples from a 37-value boundary set for every opcode, and a grid of transaction/environment conversions, each executed on the real interpreter in lock-step (pc, stack, heap, failure after every instruction) with an independent reference interpreter',
+         'Bounded exhaustive exploration of the real MelVM interpreter (single-stepped through hook H1) against a reference interpreter written from DESIGN.md appendix C with BigUint arithmetic: every program of the bounded space is run on both and compared after every instruction, then through the public debug_execute twice (determinism). Right level: the interpreter is a sequential deterministic machine whose every instruction arm, failure mode and loop-bookkeeping path is reached by programs of <= 5 instructions plus per-opcode operand boundaries.',
+         'Trusted: the reference interpreter (harness/src/refvm.rs), blake3, ed25519-consensus; shifts by >= 256 are recorded as implementation-defined (amount reduced mod 256). Programs longer than the bound, heaps other than the three used, and operands outside the boundary set are not covered. The hook only re-exports the Executor type.',
+         'DESIGN.md §4 C10, appendix C'),
+ 'C11': ('E2-vm-lockstep',
+         'exhaustive enumeration of all programs up to length 4 (thorough 5) over a 28-symbol control-flow alphabet and loop towers (oracle steps <= weight, weight == reference weight), all loop-header programs with n <= 6 (thorough 8) headers over {0,1,2}x{0,1,n,65535} plus uniform families up to n = 2000 and 0xb0 byte strings up to 100 kB (oracle: weighing work counter <= n^3+64, terminates), and data-doubling / deep-nesting families x every consuming opcode in child processes (oracle: peak heap growth <= 4096*(weight+64), terminates within the deadline)',
+         'Bounded exhaustive exploration of the real interpreter and weight calculator: instruction counts from single-stepping the real Executor (H1) against Covenant::weight(); deterministic weighing work from the H2 counter; memory from a counting allocator in child processes with a 2 MiB stack and an address-space limit. Right level: cost violations need specific program shapes (nested loops, overrunning bodies, doubling followed by a materialising opcode), which the families enumerate completely within the stated bounds.',
+         'Trusted: the harness allocator accounting; the per-child deadline (10 s quick / 30 s thorough) as the only time judgement; "polynomial" is judged on n <= 2000 headers and k <= 26 doublings. Crashes (stack overflow) are attributed to C09, not C11.',
+         'DESIGN.md §4 C11'),
  'C12': ('E2-bytecode-enumeration',
          'exhaustive enumeration of all byte strings <= 3 bytes (thorough: + all 4-byte strings with an operand-taking first opcode), all opcode x operand-length classes and all instruction lists <= 2 (thorough <= 3) over boundary representatives, each against a reference codec',
          'Bounded exhaustive enumeration of the real codec (Covenant::from_bytes/to_bytes/from_ops/to_ops/hash/weight, OpCode::encode) against an independent table-driven reference codec: every byte string up to the bound is decoded by both; accepted strings must re-encode to themselves; every representable instruction list must round-trip. This is the right level because the property is a statement about a finite-state codec whose every branch is reached by strings of <= 3 bytes plus per-opcode operand-length classes.',
